@@ -130,6 +130,19 @@ impl<'a> RecordRef<'a> {
 
     /// Returns the CIGAR operations.
     pub fn cigar(&self) -> Cigar<'a> {
+        let src = self.overflowing_cigar().unwrap_or_else(|| self.raw_cigar());
+        Cigar::new(src)
+    }
+
+    fn raw_cigar(&self) -> &'a [u8] {
+        let start = self.name_length();
+        let end = start + (self.cigar_op_count() * mem::size_of::<u32>());
+        &self.rest[start..end]
+    }
+
+    // § 4.2.2 "`N_CIGAR_OP` field" (2022-08-22): returns the raw CIGAR of the `CG` data field if
+    // the CIGAR is the `kSmN` placeholder.
+    fn overflowing_cigar(&self) -> Option<&'a [u8]> {
         use crate::record::data::get_raw_cigar;
 
         const SKIP: u8 = 3;
@@ -140,11 +153,7 @@ impl<'a> RecordRef<'a> {
             ((n & 0x0f) as u8, usize::try_from(n >> 4).unwrap())
         }
 
-        let start = self.name_length();
-        let end = start + (self.cigar_op_count() * mem::size_of::<u32>());
-        let src = &self.rest[start..end];
-
-        if let ([chunk_0, chunk_1], []) = src.as_chunks() {
+        if let ([chunk_0, chunk_1], []) = self.raw_cigar().as_chunks() {
             let k = self.base_count();
 
             let op_1 = decode_op(chunk_0);
@@ -154,12 +163,12 @@ impl<'a> RecordRef<'a> {
                 let mut data_src = self.raw_data();
 
                 if let Ok(Some(buf)) = get_raw_cigar(&mut data_src) {
-                    return Cigar::new(buf);
+                    return Some(buf);
                 }
             }
         }
 
-        Cigar::new(src)
+        None
     }
 
     /// Returns the sequence.
@@ -207,7 +216,15 @@ impl<'a> RecordRef<'a> {
 
     /// Returns the data.
     pub fn data(&self) -> Data<'a> {
-        Data::new(self.raw_data())
+        let src = self.raw_data();
+
+        // The overflowing CIGAR field is returned by `cigar`. It is not part of the data, which is
+        // also how the record is decoded to a record buffer.
+        if self.overflowing_cigar().is_some() {
+            Data::without_cigar(src)
+        } else {
+            Data::new(src)
+        }
     }
 
     fn raw_data(&self) -> &'a [u8] {
